@@ -877,3 +877,200 @@ Theorem C05_src_c_avx512_blake3_hash_many_avx512_loop1 : forall h16 h8 h4 ext fu
    let '(rest, c', _) := st in Ok (rest, N.of_nat (length rest), c', acc ++ outs)).
 Proof. exact src_c_avx512_blake3_hash_many_avx512_loop1_ok. Qed.
 Print Assumptions C05_src_c_avx512_blake3_hash_many_avx512_loop1.
+
+(* ---- the WHOLE hash_many / blake3_hash_many_* functions as translated (gen/GenCascades.v), against the cascade
+   models of Model/Kernels.v (Proofs/CascadesP2.v).  The N-way kernels are the model's hashN_gen .. / hash16_avx512 ..,
+   compress_in_place is any `cip` (C: one that keeps the cv 8 words long, cip_len8; it holds of
+   compress_in_place_rows and of Portable.compress_in_place: cip_len8_rows, cip_len8_portable).  Each equation
+   compares the two results whatever they are (Ok value or Panic code), at EVERY fuel above the stated bound. ---- *)
+From V Require Import Proofs.CascadesP2.
+
+(* src/rust_sse2.rs / src/rust_sse41.rs hash_many::<N>: every input has N = n bytes, out.len() = 32 * cap *)
+Theorem C05_src_rs_sse2_hash_many : forall lc4 cip fuel n inputs key counter incr flags fs fe cap,
+  (length inputs < fuel)%nat -> (n / 64 < fuel)%nat -> Forall (fun i => length i = n) inputs ->
+  N.of_nat (length inputs) * 32 < 2 ^ 64 ->
+  src_rs_sse2_hash_many (hashN_gen 4 transpose_msg_vecs4 lc4 store4) (okc cip) fuel (N.of_nat n) inputs key counter incr flags fs fe (32 * cap)
+  = hash_many_rs4 lc4 cip inputs key counter incr flags fs fe cap.
+Proof. exact src_rs_sse2_hash_many_ok. Qed.
+Print Assumptions C05_src_rs_sse2_hash_many.
+Theorem C05_src_rs_sse41_hash_many : forall lc4 cip fuel n inputs key counter incr flags fs fe cap,
+  (length inputs < fuel)%nat -> (n / 64 < fuel)%nat -> Forall (fun i => length i = n) inputs ->
+  N.of_nat (length inputs) * 32 < 2 ^ 64 ->
+  src_rs_sse41_hash_many (hashN_gen 4 transpose_msg_vecs4 lc4 store4) (okc cip) fuel (N.of_nat n) inputs key counter incr flags fs fe (32 * cap)
+  = hash_many_rs4 lc4 cip inputs key counter incr flags fs fe cap.
+Proof. exact src_rs_sse41_hash_many_ok. Qed.
+Print Assumptions C05_src_rs_sse41_hash_many.
+(* src/rust_avx2.rs hash_many::<N>; `crate::sse41::hash_many` is the translated src_rs_sse41_hash_many *)
+Theorem C05_src_rs_avx2_hash_many : forall lc8 lc4 cip fuel n inputs key counter incr flags fs fe cap,
+  (length inputs < fuel)%nat -> (n / 64 < fuel)%nat -> Forall (fun i => length i = n) inputs ->
+  N.of_nat (length inputs) * 32 < 2 ^ 64 ->
+  src_rs_avx2_hash_many (hashN_gen 8 transpose_msg_vecs8 lc8 store8)
+    (src_rs_sse41_hash_many (hashN_gen 4 transpose_msg_vecs4 lc4 store4) (okc cip) fuel)
+    fuel (N.of_nat n) inputs key counter incr flags fs fe (32 * cap)
+  = hash_many_rs8 lc8 lc4 cip inputs key counter incr flags fs fe cap.
+Proof. exact src_rs_avx2_hash_many_ok. Qed.
+Print Assumptions C05_src_rs_avx2_hash_many.
+
+(* c/blake3_sse2.c / c/blake3_sse41.c blake3_hash_many_*: num_inputs = the number of input pointers, every input has at
+   least 64 * blocks bytes (long_enough), `out` is any pointer (only written through) *)
+Theorem C05_src_c_sse2_blake3_hash_many_sse2 : forall lc4 (cip : cip_fn) fuel inputs bn key counter incr flags fs fe out,
+  cip_len8 cip -> length key = 8%nat -> N.of_nat bn < 2 ^ 64 ->
+  (length inputs + bn < fuel)%nat -> N.of_nat (length inputs) < 2 ^ 64 -> Forall (long_enough bn) inputs ->
+  src_c_sse2_blake3_hash_many_sse2 (hashN_gen 4 transpose_msg_vecs4 lc4 store4) cip fuel inputs (N.of_nat (length inputs))
+    (N.of_nat bn) key counter incr flags fs fe out
+  = hash_many_c4 lc4 cip inputs bn key counter incr flags fs fe.
+Proof. exact src_c_sse2_blake3_hash_many_sse2_ok. Qed.
+Print Assumptions C05_src_c_sse2_blake3_hash_many_sse2.
+Theorem C05_src_c_sse41_blake3_hash_many_sse41 : forall lc4 (cip : cip_fn) fuel inputs bn key counter incr flags fs fe out,
+  cip_len8 cip -> length key = 8%nat -> N.of_nat bn < 2 ^ 64 ->
+  (length inputs + bn < fuel)%nat -> N.of_nat (length inputs) < 2 ^ 64 -> Forall (long_enough bn) inputs ->
+  src_c_sse41_blake3_hash_many_sse41 (hashN_gen 4 transpose_msg_vecs4 lc4 store4) cip fuel inputs (N.of_nat (length inputs))
+    (N.of_nat bn) key counter incr flags fs fe out
+  = hash_many_c4 lc4 cip inputs bn key counter incr flags fs fe.
+Proof. exact src_c_sse41_blake3_hash_many_sse41_ok. Qed.
+Print Assumptions C05_src_c_sse41_blake3_hash_many_sse41.
+(* c/blake3_avx2.c blake3_hash_many_avx2; `blake3_hash_many_sse41` is the translated function *)
+Theorem C05_src_c_avx2_blake3_hash_many_avx2 : forall lc8 lc4 (cip : cip_fn) fuel inputs bn key counter incr flags fs fe out,
+  cip_len8 cip -> length key = 8%nat -> N.of_nat bn < 2 ^ 64 ->
+  (length inputs + bn < fuel)%nat -> N.of_nat (length inputs) < 2 ^ 64 -> Forall (long_enough bn) inputs ->
+  src_c_avx2_blake3_hash_many_avx2 (hashN_gen 8 transpose_msg_vecs8 lc8 store8)
+    (src_c_sse41_blake3_hash_many_sse41 (hashN_gen 4 transpose_msg_vecs4 lc4 store4) cip fuel)
+    fuel inputs (N.of_nat (length inputs)) (N.of_nat bn) key counter incr flags fs fe out
+  = hash_many_c8 lc8 lc4 cip inputs bn key counter incr flags fs fe.
+Proof. exact src_c_avx2_blake3_hash_many_avx2_ok. Qed.
+Print Assumptions C05_src_c_avx2_blake3_hash_many_avx2.
+(* c/blake3_avx512.c blake3_hash_many_avx512: 16, 8, 4, 1 *)
+Theorem C05_src_c_avx512_blake3_hash_many_avx512 : forall (cip : cip_fn) fuel inputs bn key counter incr flags fs fe out,
+  cip_len8 cip -> length key = 8%nat -> N.of_nat bn < 2 ^ 64 ->
+  (length inputs + bn < fuel)%nat -> N.of_nat (length inputs) < 2 ^ 64 -> Forall (long_enough bn) inputs ->
+  src_c_avx512_blake3_hash_many_avx512 hash16_avx512 hash8_avx512 hash4_avx512 cip fuel inputs (N.of_nat (length inputs))
+    (N.of_nat bn) key counter incr flags fs fe out
+  = hash_many_c16 cip inputs bn key counter incr flags fs fe.
+Proof. exact src_c_avx512_blake3_hash_many_avx512_ok. Qed.
+Print Assumptions C05_src_c_avx512_blake3_hash_many_avx512.
+
+(* c/blake3_portable.c blake3_hash_many_portable: every input has exactly blocks * 64 bytes, `out` has room for
+   num_inputs * 32 bytes.  In general it is the one-at-a-time loop over Portable.hash1 with the WRAPPING uint64_t counter;
+   it is Portable.hash_many (whose counter += 1 is overflow-checked, Panic 1001, and which has the debug assertion 1101
+   on the capacity) when the counter stays below 2^64 and num_inputs <= cap. *)
+Theorem C05_src_c_portable_blake3_hash_many_portable_single : forall fuel inputs bn key counter incr flags fs fe out,
+  length key = 8%nat -> N.of_nat bn < 2 ^ 64 ->
+  (length inputs + bn < fuel)%nat -> N.of_nat (length inputs) < 2 ^ 64 -> Forall (exact_len bn) inputs ->
+  (32 * length inputs <= length out)%nat ->
+  src_c_portable_blake3_hash_many_portable fuel inputs (N.of_nat (length inputs)) (N.of_nat bn) key counter incr flags fs fe out
+  = single_loop portable_hash1 cadd_c false inputs bn key counter incr flags fs fe 0.
+Proof. exact src_c_portable_blake3_hash_many_portable_single. Qed.
+Print Assumptions C05_src_c_portable_blake3_hash_many_portable_single.
+Theorem C05_src_c_portable_blake3_hash_many_portable : forall fuel inputs bn key counter incr flags fs fe out cap,
+  length key = 8%nat -> N.of_nat bn < 2 ^ 64 ->
+  (length inputs + bn < fuel)%nat -> N.of_nat (length inputs) < 2 ^ 64 -> Forall (exact_len bn) inputs ->
+  (32 * length inputs <= length out)%nat -> N.of_nat (length inputs) <= cap ->
+  (incr = true -> counter + N.of_nat (length inputs) < 2 ^ 64) ->
+  src_c_portable_blake3_hash_many_portable fuel inputs (N.of_nat (length inputs)) (N.of_nat bn) key counter incr flags fs fe out
+  = Portable.hash_many inputs key counter incr flags fs fe cap.
+Proof. exact src_c_portable_blake3_hash_many_portable_ok. Qed.
+Print Assumptions C05_src_c_portable_blake3_hash_many_portable.
+
+From Coq Require Import Lia.
+(* non-vacuity: the side conditions of the whole-function theorems hold of 21 inputs of 2 blocks, an 8-word key,
+   fuel 30, compress_in_place_rows, a 21 * 32-byte `out` *)
+Example C05_src_hash_many_side_conditions_inhabited :
+  let inputs := repeat (repeat 0 128%nat) 21 in
+  cip_len8 compress_in_place_rows /\ length (repeat 0 8%nat) = 8%nat /\ N.of_nat 2 < 2 ^ 64 /\
+  (length inputs + 2 < 30)%nat /\ (length inputs < 30)%nat /\ (128 / 64 < 30)%nat /\
+  N.of_nat (length inputs) < 2 ^ 64 /\ N.of_nat (length inputs) * 32 < 2 ^ 64 /\
+  Forall (long_enough 2) inputs /\ Forall (exact_len 2) inputs /\ Forall (fun i => length i = 128%nat) inputs /\
+  (32 * length inputs <= length (repeat 0 672%nat))%nat.
+Proof.
+  cbv zeta. rewrite !repeat_length.
+  assert (F : forall P : list N -> Prop, P (repeat 0 128%nat) -> Forall P (repeat (repeat 0 128%nat) 21)).
+  { intros P HP. apply Forall_forall. intros x Hx. apply repeat_spec in Hx. subst x. exact HP. }
+  repeat split; try exact cip_len8_rows; try (apply F; unfold long_enough, exact_len; rewrite repeat_length); try lia;
+    try reflexivity; try (apply Nat.div_lt_upper_bound; lia).
+Qed.
+
+(* ---- the individual loops of the cascades (Proofs/CascadesP2.v) ---- *)
+(* the trailing `for (&input, output) in inputs.iter().zip(out.chunks_exact_mut(OUT_LEN))` of rust_sse2.rs / rust_sse41.rs:
+   single_loop over hash1_rs, stopping when `out` is exhausted (chunks = out.len() / OUT_LEN) *)
+Theorem C05_src_rs_sse2_hash_many_loop2 : forall hN cip fuel n blocks inputs chunks key counter incr flags fs fe acc,
+  (n / 64 < fuel)%nat -> Forall (fun i => length i = n) inputs ->
+  ('(counter, out_w) <- src_rs_sse2_hash_many_loop2 hN (okc cip) fuel (N.of_nat n) inputs chunks key counter incr flags fs fe acc ;; Ok out_w)
+  = (r <- single_loop (hash1_rs cip) cadd_rs true inputs blocks key counter incr flags fs fe chunks ;; Ok (acc ++ r)).
+Proof. exact src_rs_sse2_hash_many_loop2_ok. Qed.
+Print Assumptions C05_src_rs_sse2_hash_many_loop2.
+Theorem C05_src_rs_sse41_hash_many_loop2 : forall hN cip fuel n blocks inputs chunks key counter incr flags fs fe acc,
+  (n / 64 < fuel)%nat -> Forall (fun i => length i = n) inputs ->
+  ('(counter, out_w) <- src_rs_sse41_hash_many_loop2 hN (okc cip) fuel (N.of_nat n) inputs chunks key counter incr flags fs fe acc ;; Ok out_w)
+  = (r <- single_loop (hash1_rs cip) cadd_rs true inputs blocks key counter incr flags fs fe chunks ;; Ok (acc ++ r)).
+Proof. exact src_rs_sse41_hash_many_loop2_ok. Qed.
+Print Assumptions C05_src_rs_sse41_hash_many_loop2.
+(* the degree-8 loop of rust_avx2.rs *)
+Theorem C05_src_rs_avx2_hash_many_loop1 : forall hN ext fuel gN inputs key counter incr flags fs fe cap acc, (length inputs < fuel)%nat ->
+  src_rs_avx2_hash_many_loop1 hN ext fuel gN inputs key counter incr flags fs fe (32 * cap) acc =
+  ('(outs, st) <- batch_while fuel 8 hN cadd_rs true inputs (N.to_nat (gN / 64)) key counter incr flags fs fe cap ;;
+   let '(rest, c', cap') := st in Ok (rest, c', 32 * cap', acc ++ outs)).
+Proof. exact src_rs_avx2_hash_many_loop1_ok. Qed.
+Print Assumptions C05_src_rs_avx2_hash_many_loop1.
+(* the `while (num_inputs >= DEGREE)` loops of the C files: batch_while DEGREE, wrapping counter, no capacity test;
+   out' = where the `out` pointer stands afterwards *)
+Theorem C05_src_c_sse2_blake3_hash_many_sse2_loop1 : forall hN ext fuel inputs blocks key counter incr flags fs fe out acc,
+  (length inputs < fuel)%nat -> N.of_nat (length inputs) < 2 ^ 64 ->
+  exists out', src_c_sse2_blake3_hash_many_sse2_loop1 hN ext fuel inputs (N.of_nat (length inputs)) blocks key counter incr flags fs fe out acc =
+    ('(outs, st) <- batch_while fuel 4 hN cadd_c false inputs (N.to_nat blocks) key counter incr flags fs fe 0 ;;
+     let '(rest, c', _) := st in Ok (rest, N.of_nat (length rest), c', out', acc ++ outs)).
+Proof. exact src_c_sse2_blake3_hash_many_sse2_loop1_ok. Qed.
+Print Assumptions C05_src_c_sse2_blake3_hash_many_sse2_loop1.
+Theorem C05_src_c_sse41_blake3_hash_many_sse41_loop1 : forall hN ext fuel inputs blocks key counter incr flags fs fe out acc,
+  (length inputs < fuel)%nat -> N.of_nat (length inputs) < 2 ^ 64 ->
+  exists out', src_c_sse41_blake3_hash_many_sse41_loop1 hN ext fuel inputs (N.of_nat (length inputs)) blocks key counter incr flags fs fe out acc =
+    ('(outs, st) <- batch_while fuel 4 hN cadd_c false inputs (N.to_nat blocks) key counter incr flags fs fe 0 ;;
+     let '(rest, c', _) := st in Ok (rest, N.of_nat (length rest), c', out', acc ++ outs)).
+Proof. exact src_c_sse41_blake3_hash_many_sse41_loop1_ok. Qed.
+Print Assumptions C05_src_c_sse41_blake3_hash_many_sse41_loop1.
+Theorem C05_src_c_avx2_blake3_hash_many_avx2_loop1 : forall hN ext fuel inputs blocks key counter incr flags fs fe out acc,
+  (length inputs < fuel)%nat -> N.of_nat (length inputs) < 2 ^ 64 ->
+  exists out', src_c_avx2_blake3_hash_many_avx2_loop1 hN ext fuel inputs (N.of_nat (length inputs)) blocks key counter incr flags fs fe out acc =
+    ('(outs, st) <- batch_while fuel 8 hN cadd_c false inputs (N.to_nat blocks) key counter incr flags fs fe 0 ;;
+     let '(rest, c', _) := st in Ok (rest, N.of_nat (length rest), c', out', acc ++ outs)).
+Proof. exact src_c_avx2_blake3_hash_many_avx2_loop1_ok. Qed.
+Print Assumptions C05_src_c_avx2_blake3_hash_many_avx2_loop1.
+Theorem C05_src_c_avx512_blake3_hash_many_avx512_loop2 : forall h16 h8 h4 ext fuel inputs blocks key counter incr flags fs fe out acc,
+  (length inputs < fuel)%nat -> N.of_nat (length inputs) < 2 ^ 64 ->
+  exists out', src_c_avx512_blake3_hash_many_avx512_loop2 h16 h8 h4 ext fuel inputs (N.of_nat (length inputs)) blocks key counter incr flags fs fe out acc =
+    ('(outs, st) <- batch_while fuel 8 h8 cadd_c false inputs (N.to_nat blocks) key counter incr flags fs fe 0 ;;
+     let '(rest, c', _) := st in Ok (rest, N.of_nat (length rest), c', out', acc ++ outs)).
+Proof. exact src_c_avx512_blake3_hash_many_avx512_loop2_ok. Qed.
+Print Assumptions C05_src_c_avx512_blake3_hash_many_avx512_loop2.
+Theorem C05_src_c_avx512_blake3_hash_many_avx512_loop3 : forall h16 h8 h4 ext fuel inputs blocks key counter incr flags fs fe out acc,
+  (length inputs < fuel)%nat -> N.of_nat (length inputs) < 2 ^ 64 ->
+  exists out', src_c_avx512_blake3_hash_many_avx512_loop3 h16 h8 h4 ext fuel inputs (N.of_nat (length inputs)) blocks key counter incr flags fs fe out acc =
+    ('(outs, st) <- batch_while fuel 4 h4 cadd_c false inputs (N.to_nat blocks) key counter incr flags fs fe 0 ;;
+     let '(rest, c', _) := st in Ok (rest, N.of_nat (length rest), c', out', acc ++ outs)).
+Proof. exact src_c_avx512_blake3_hash_many_avx512_loop3_ok. Qed.
+Print Assumptions C05_src_c_avx512_blake3_hash_many_avx512_loop3.
+(* the trailing `while (num_inputs > 0)` loops of the C files: single_loop over hash_one_c, wrapping counter; fuel above
+   num_inputs + blocks because the inner hash_one_* block loop runs on the same (decreasing) fuel *)
+Theorem C05_src_c_sse2_blake3_hash_many_sse2_loop2 : forall hN (cip : cip_fn) bn key flags fs fe, cip_len8 cip -> length key = 8%nat ->
+  N.of_nat bn < 2 ^ 64 -> forall inputs fuel counter incr out acc,
+  (length inputs + bn < fuel)%nat -> N.of_nat (length inputs) < 2 ^ 64 -> Forall (long_enough bn) inputs ->
+  ('(inputs, num_inputs, counter, out, out_w) <-
+      src_c_sse2_blake3_hash_many_sse2_loop2 hN cip fuel inputs (N.of_nat (length inputs)) (N.of_nat bn) key counter incr flags fs fe out acc ;; Ok out_w)
+  = (r <- single_loop (hash_one_c cip) cadd_c false inputs bn key counter incr flags fs fe 0 ;; Ok (acc ++ r)).
+Proof. exact src_c_sse2_blake3_hash_many_sse2_loop2_ok. Qed.
+Print Assumptions C05_src_c_sse2_blake3_hash_many_sse2_loop2.
+Theorem C05_src_c_sse41_blake3_hash_many_sse41_loop2 : forall hN (cip : cip_fn) bn key flags fs fe, cip_len8 cip -> length key = 8%nat ->
+  N.of_nat bn < 2 ^ 64 -> forall inputs fuel counter incr out acc,
+  (length inputs + bn < fuel)%nat -> N.of_nat (length inputs) < 2 ^ 64 -> Forall (long_enough bn) inputs ->
+  ('(inputs, num_inputs, counter, out, out_w) <-
+      src_c_sse41_blake3_hash_many_sse41_loop2 hN cip fuel inputs (N.of_nat (length inputs)) (N.of_nat bn) key counter incr flags fs fe out acc ;; Ok out_w)
+  = (r <- single_loop (hash_one_c cip) cadd_c false inputs bn key counter incr flags fs fe 0 ;; Ok (acc ++ r)).
+Proof. exact src_c_sse41_blake3_hash_many_sse41_loop2_ok. Qed.
+Print Assumptions C05_src_c_sse41_blake3_hash_many_sse41_loop2.
+Theorem C05_src_c_avx512_blake3_hash_many_avx512_loop4 : forall h16 h8 h4 (cip : cip_fn) bn key flags fs fe, cip_len8 cip -> length key = 8%nat ->
+  N.of_nat bn < 2 ^ 64 -> forall inputs fuel counter incr out acc,
+  (length inputs + bn < fuel)%nat -> N.of_nat (length inputs) < 2 ^ 64 -> Forall (long_enough bn) inputs ->
+  ('(inputs, num_inputs, counter, out, out_w) <-
+      src_c_avx512_blake3_hash_many_avx512_loop4 h16 h8 h4 cip fuel inputs (N.of_nat (length inputs)) (N.of_nat bn) key counter incr flags fs fe out acc ;; Ok out_w)
+  = (r <- single_loop (hash_one_c cip) cadd_c false inputs bn key counter incr flags fs fe 0 ;; Ok (acc ++ r)).
+Proof. exact src_c_avx512_blake3_hash_many_avx512_loop4_ok. Qed.
+Print Assumptions C05_src_c_avx512_blake3_hash_many_avx512_loop4.
